@@ -215,6 +215,10 @@ func (s *Stream) WriteRtpPacket(packet *rtp.Packet) error {
 
 	simhook.BeforeLock(&s.joinLock)
 	s.joinLock.Lock()
+	if status = atomic.LoadInt32(&s.status); status != StreamOK { // 等锁期间流已关闭：缓存已清空，不能再写入
+		s.joinLock.Unlock()
+		return statusErrors[status]
+	}
 	keyframe := s.cache.CachePack(packet)
 	simhook.Y("stream.writeRtp.betweenCacheAndSend")
 	s.consumptions.SendToAll(packet, keyframe)
@@ -246,6 +250,10 @@ func (s *Stream) WriteFlvTag(tag *flv.Tag) error {
 
 	simhook.BeforeLock(&s.flvJoinLock)
 	s.flvJoinLock.Lock()
+	if status = atomic.LoadInt32(&s.status); status != StreamOK { // 等锁期间流已关闭：缓存已清空，不能再写入
+		s.flvJoinLock.Unlock()
+		return statusErrors[status]
+	}
 	keyframe := s.flvCache.CachePack(tag)
 	simhook.Y("stream.writeFlv.betweenCacheAndSend")
 	s.flvConsumptions.SendToAll(tag, keyframe)
@@ -300,7 +308,8 @@ func (s *Stream) startConsume(consumer Consumer, packetType PacketType, extra st
 	simhook.Y("stream.startConsume.beforeGop")
 	simhook.BeforeLock(joinLock)
 	joinLock.Lock()
-	if useGopCache {
+	// 流已关闭时缓存已被清空，此后仍可能有迟到的包进入缓存（没有参数集/序列头），不能回放给新消费者
+	if useGopCache && atomic.LoadInt32(&s.status) == StreamOK {
 		c.sendGop(cache) // 新消费者，先发送gop缓存
 	}
 	simhook.Y("stream.startConsume.betweenGopAndAdd")
